@@ -518,6 +518,8 @@ structure PayOnly (obj : Nat) (s s' : PState) : Prop where
   same : s'.allBlocks = s.allBlocks ∧ s'.tableHandle = s.tableHandle ∧ s'.streamEnd = s.streamEnd
   pkgEnd : s'.r.pkgEnd = s.r.pkgEnd
   off : s.r.offset ≤ s'.r.offset
+  /-- `obj` neither becomes nor stops being a `Method` -/
+  mth : (slot s'.tree obj).opcode = opMethod ↔ (slot s.tree obj).opcode = opMethod
 
 theorem SameLinks.refl (t : ObjectTree) : SameLinks t t :=
   ⟨rfl, rfl, fun _ => rfl, fun _ => rfl, fun _ => rfl, fun _ => rfl, fun _ => rfl, fun _ => rfl, fun _ => rfl⟩
@@ -528,26 +530,32 @@ theorem SameLinks.trans {a b c : ObjectTree} (h1 : SameLinks a b) (h2 : SameLink
    fun x => by rw [h2.live, h1.live], fun x => by rw [h2.index, h1.index]⟩
 
 theorem PayOnly.refl (obj : Nat) (s : PState) : PayOnly obj s s :=
-  ⟨SameLinks.refl _, fun _ _ => rfl, rfl, rfl, ⟨rfl, rfl, rfl⟩, rfl, Nat.le_refl _⟩
+  ⟨SameLinks.refl _, fun _ _ => rfl, rfl, rfl, ⟨rfl, rfl, rfl⟩, rfl, Nat.le_refl _, Iff.rfl⟩
 
 theorem PayOnly.trans {obj : Nat} {a b c : PState} (h1 : PayOnly obj a b) (h2 : PayOnly obj b c) : PayOnly obj a c :=
   ⟨h1.links.trans h2.links, fun x hx => by rw [h2.others x hx, h1.others x hx], by rw [h2.scope, h1.scope],
    by rw [h2.pkg, h1.pkg], ⟨by rw [h2.same.1, h1.same.1], by rw [h2.same.2.1, h1.same.2.1], by rw [h2.same.2.2, h1.same.2.2]⟩,
-   by rw [h2.pkgEnd, h1.pkgEnd], Nat.le_trans h1.off h2.off⟩
+   by rw [h2.pkgEnd, h1.pkgEnd], Nat.le_trans h1.off h2.off, h2.mth.trans h1.mth⟩
 
 theorem PayOnly.ofR (obj : Nat) (s : PState) (r' : Reader) (hp : r'.pkgEnd = s.r.pkgEnd) (ho : s.r.offset ≤ r'.offset) :
     PayOnly obj s { s with r := r' } :=
-  ⟨SameLinks.refl _, fun _ _ => rfl, rfl, rfl, ⟨rfl, rfl, rfl⟩, hp, ho⟩
+  ⟨SameLinks.refl _, fun _ _ => rfl, rfl, rfl, ⟨rfl, rfl, rfl⟩, hp, ho, Iff.rfl⟩
 
-theorem PayOnly.ofSetAt (obj : Nat) (s : PState) (f : Obj → Obj) (hf : KeepsLinks f) (hl : KeepsLive s.tree obj f) :
+theorem PayOnly.ofSetAt (obj : Nat) (s : PState) (f : Obj → Obj) (hf : KeepsLinks f) (hl : KeepsLive s.tree obj f)
+    (hm : (f (slot s.tree obj)).opcode = opMethod ↔ (slot s.tree obj).opcode = opMethod) :
     PayOnly obj s { s with tree := setAt s.tree obj f } := by
-  refine ⟨sameLinks_setAt s.tree obj f hf hl, ?_, rfl, rfl, ⟨rfl, rfl, rfl⟩, rfl, Nat.le_refl _⟩
-  intro x hx
-  show slot (setAt s.tree obj f) x = slot s.tree x
-  rw [slot_setAt']
-  split
-  · rename_i hc; exact absurd hc.1.symm hx
-  · rfl
+  refine ⟨sameLinks_setAt s.tree obj f hf hl, ?_, rfl, rfl, ⟨rfl, rfl, rfl⟩, rfl, Nat.le_refl _, ?_⟩
+  · intro x hx
+    show slot (setAt s.tree obj f) x = slot s.tree x
+    rw [slot_setAt']
+    split
+    · rename_i hc; exact absurd hc.1.symm hx
+    · rfl
+  · show (slot (setAt s.tree obj f) obj).opcode = opMethod ↔ _
+    rw [slot_setAt']
+    split
+    · exact hm
+    · exact Iff.rfl
 
 macro "keeps_links" : tactic => `(tactic| (intro o; exact ⟨rfl, rfl, rfl, rfl, rfl, rfl⟩))
 
